@@ -212,7 +212,8 @@ func checkUnorderedSources(r *Run, prog *Program, a *Anchors, pfx string) {
 						r.Check(pfx+".unordered-source", fn.Name()+":MapKeys", prog.pos(x.Pos()), ok, okInfo(ok, shape, why))
 					case isReflectMethod(callee, "MapRange"):
 						n++
-						r.Check(pfx+".unordered-source", fn.Name()+":MapRange", prog.pos(x.Pos()), false, "iteration with reflect.Value.MapRange: no safe shape recognised for it (order is Go's random map order)")
+						ok, shape, why := classifyMapIter(prog, fn, x)
+						r.Check(pfx+".unordered-source", fn.Name()+":MapRange", prog.pos(x.Pos()), ok, okInfo(ok, shape, why))
 					case callee != nil && callee.Pkg != nil && callee.Pkg.Pkg.Path() == "maps" && (callee.Name() == "Keys" || callee.Name() == "Values" || callee.Name() == "All"):
 						n++
 						r.Check(pfx+".unordered-source", fn.Name()+":maps."+callee.Name(), prog.pos(x.Pos()), false, "maps."+callee.Name()+" yields an unordered sequence: no safe shape recognised")
@@ -378,6 +379,12 @@ func classifyKeySlice(prog *Program, fn *ssa.Function, src *ssa.Call) (bool, str
 	if header == nil {
 		return false, "", "the key slice is indexed outside a loop"
 	}
+	return consumingLoopOK(prog, fn, header, 1)
+}
+
+// consumingLoopOK: the loop carries at most maxPhis values (the position), every return inside it is an error return,
+// and its only effects are insertions into a map made in this function.
+func consumingLoopOK(prog *Program, fn *ssa.Function, header *ssa.BasicBlock, maxPhis int) (bool, string, string) {
 	lb := loopBlocks(header)
 	// loop-carried state: only the induction variable
 	nphi := 0
@@ -386,8 +393,8 @@ func classifyKeySlice(prog *Program, fn *ssa.Function, src *ssa.Call) (bool, str
 			nphi++
 		}
 	}
-	if nphi != 1 {
-		return false, "", fmt.Sprintf("the loop over the keys carries %d values from one iteration to the next (besides the position): its result may depend on the visiting order", nphi-1)
+	if nphi > maxPhis {
+		return false, "", fmt.Sprintf("the loop over the keys carries %d values from one iteration to the next (besides the position): its result may depend on the visiting order", nphi-maxPhis)
 	}
 	// exits: every return inside the loop is an error return
 	ps := NewPathSim(prog)
@@ -435,6 +442,24 @@ func classifyKeySlice(prog *Program, fn *ssa.Function, src *ssa.Call) (bool, str
 		}
 	}
 	return true, "single exit class (errors only), commuting effects (insertion under the entry's own key)", ""
+}
+
+// classifyMapIter: `it := v.MapRange(); for it.Next() { … }`
+func classifyMapIter(prog *Program, fn *ssa.Function, src *ssa.Call) (bool, string, string) {
+	var header *ssa.BasicBlock
+	if refs := src.Referrers(); refs != nil {
+		for _, u := range *refs {
+			if c, ok := u.(*ssa.Call); ok && c.Call.StaticCallee() != nil && c.Call.StaticCallee().Name() == "Next" && len(c.Call.Args) > 0 && c.Call.Args[0] == ssa.Value(src) {
+				if _, isIf := c.Block().Instrs[len(c.Block().Instrs)-1].(*ssa.If); isIf {
+					header = c.Block()
+				}
+			}
+		}
+	}
+	if header == nil {
+		return false, "", "the map iterator is not consumed by a recognisable `for it.Next()` loop"
+	}
+	return consumingLoopOK(prog, fn, header, 0)
 }
 
 // classifyMapRange: `for k := range m { s = append(s, k) }; sort.X(s)`
